@@ -71,7 +71,8 @@ def run(ctx):
         a, b = np.asarray(a), np.asarray(b)
         if a.shape != b.shape or not np.all(np.isfinite(a)) or not np.all(np.isfinite(b)):
             return 10 ** 9
-        return int(min(10 ** 9, round(float(np.max(np.abs(a - b)) / max(np.max(np.abs(b)), 1e-300)) * 1e12 / 1000))) * 1000 // 1000
+        r = float(np.max(np.abs(a - b)) / max(np.max(np.abs(b)), 1e-300)) * 1e12
+        return int(min(10 ** 9, round(r / 1000))) if np.isfinite(r) else 10 ** 9
 
     def law(name, a, b, dB=0):
         events.append({"kind": "law", "name": name, "ppt": rel(a, b), "dB": int(math.ceil(dB))})
@@ -88,7 +89,7 @@ def run(ctx):
         if it % 29 == 28:
             x[:] = 0                                             # a dark field
         if it % 8 == 7:
-            x = x.real.copy() if it % 16 == 7 else np.round(x.real * 20 / np.abs(x).max()).astype(np.int64)      # a field stored with a real / integer dtype
+            x = x.real.copy() if it % 16 == 7 else np.round(x.real * 20 / max(np.abs(x).max(), 1e-300)).astype(np.int64)      # a field stored with a real / integer dtype
         if n % gv.sps == 0 and it % 3 == 0:
             with warnings.catch_warnings():
                 warnings.simplefilter("ignore")
@@ -150,6 +151,23 @@ def run(ctx):
         wl_ = 2 * np.pi * np.fft.fftfreq(nlong) * fs * 1e-12
         law("lattice-output", DM(sigl, Dl).signal, np.fft.ifft(np.fft.fft(xl) * np.exp(-0.5j * Dl * wl_ ** 2)))
     ctx.case(("long-record", nlong))
+    # the same samples and the same D / fibre parameters under several sampling rates in turn: the element acts on the grid in force at the call
+    rs = np.random.RandomState(5150)
+    for nn in (64, 125):
+        xs = (rs.randn(nn) + 1j * rs.randn(nn)) * 0.1
+        Ds = 30.0
+        for sps_, R_ in ((16, 1e9), (8, 5e9), (16, 1e9), (32, 2.5e9), (4, 1e9)):
+            with warnings.catch_warnings():
+                warnings.simplefilter("ignore")
+                gv(sps=sps_, R=R_)
+            ws_ = 2 * np.pi * np.fft.fftfreq(nn) * gv.fs * 1e-12
+            ref = np.fft.ifft(np.fft.fft(xs) * np.exp(-0.5j * Ds * ws_ ** 2))
+            with deadline(120):
+                o_, H_ = DM(optical_signal(xs), Ds, True)
+                law("lattice-output", o_.signal, ref)
+                law("retH-is-the-applied-filter", np.fft.ifftshift(np.asarray(H_)) if np.asarray(H_).shape == (nn,) else np.zeros(1), np.exp(-0.5j * Ds * ws_ ** 2))
+                law("FIBER(L,b2)=DM(b2*L)", FIBER(optical_signal(xs), 10.0, 0.0, Ds / 10.0).signal, ref)
+            ctx.case(("same-call-other-rate", nn, sps_))
     # the same object used again after its samples were edited in place: the element acts on the samples held now
     for it in range(4):
         fs = setfs(it % 2)
